@@ -73,10 +73,36 @@ type Sim struct {
 	BufferAfter  []int // BUFFER values reported after a data frame arrives (default: the frame length, then 0)
 	NoBuffer0    bool
 	ConnectReply string // "ok", "fault", "timeout"
+	// per data frame behaviour, keyed by the 1-based count of "D:" frames seen (retransmissions count)
+	StaleBefore  map[int][]string // control lines sent after the "D:" prefix was seen but before the frame is read: reports that
+	// crossed the frame on the line (the TNC had not received it when it sent them)
+	FaultFrames  map[int]bool  // answer this frame with CRCFAULT
+	BufferScript map[int][]int // BUFFER values reported after this frame (overrides BufferAfter)
+	nD           int
+	Log          []LogItem
 	bufferZeroAt []time.Time
 	dataArrived  []time.Time
 	done         chan struct{}
 	Garbled      []string
+}
+
+// LogItem is one entry of the TNC side event log (one clock, one process): "data" (a data frame arrived and was accepted),
+// "fault" (arrived, answered CRCFAULT), "buf" (a BUFFER report is about to be sent), "flushCall" / "flushRet" (noted by the driver).
+type LogItem struct {
+	K string `json:"k"`
+	V int    `json:"v"`
+}
+
+func (s *Sim) Note(k string, v int) {
+	s.mu.Lock()
+	s.Log = append(s.Log, LogItem{k, v})
+	s.mu.Unlock()
+}
+
+func (s *Sim) LogSnapshot() []LogItem {
+	s.mu.Lock()
+	defer s.mu.Unlock()
+	return append([]LogItem(nil), s.Log...)
 }
 
 func NewSerialSim() (*Sim, io.ReadWriteCloser) {
@@ -88,6 +114,16 @@ func NewSerialSim() (*Sim, io.ReadWriteCloser) {
 
 // SendCmd sends a control line to the host with serial framing.
 func (s *Sim) SendCmd(text string) {
+	if strings.HasPrefix(text, "BUFFER ") {
+		v := -1
+		fmt.Sscanf(text, "BUFFER %d", &v)
+		s.mu.Lock()
+		if v == 0 {
+			s.bufferZeroAt = append(s.bufferZeroAt, time.Now())
+		}
+		s.Log = append(s.Log, LogItem{"buf", v})
+		s.mu.Unlock()
+	}
 	payload := []byte(text + "\r")
 	b := append([]byte("c:"), payload...)
 	c := crc16(payload)
@@ -142,6 +178,17 @@ func (s *Sim) serve() {
 			s.mu.Unlock()
 			s.reply(it.Text)
 		case "D:":
+			s.mu.Lock()
+			s.nD++
+			nD := s.nD
+			stale := s.StaleBefore[nD]
+			s.mu.Unlock()
+			if len(stale) > 0 {
+				for _, c := range stale {
+					s.SendCmd(c)
+				}
+				time.Sleep(80 * time.Millisecond)
+			}
 			l := make([]byte, 2)
 			if _, err := io.ReadFull(rd, l); err != nil {
 				return
@@ -158,16 +205,24 @@ func (s *Sim) serve() {
 			ok := crc16(append(append([]byte(nil), l...), data...)) == binary.BigEndian.Uint16(c)
 			it := Item{Kind: "data", Data: data, CRCOK: ok, FormOK: true, At: time.Now()}
 			s.mu.Lock()
-			fault := s.CRCFaults > 0
+			fault := s.CRCFaults > 0 || s.FaultFrames[nD]
 			if fault {
-				s.CRCFaults--
+				if s.CRCFaults > 0 {
+					s.CRCFaults--
+				}
 				it.Kind = "data-faulted"
 			}
 			s.Received = append(s.Received, it)
 			if !fault {
 				s.dataArrived = append(s.dataArrived, time.Now())
+				s.Log = append(s.Log, LogItem{"data", n})
+			} else {
+				s.Log = append(s.Log, LogItem{"fault", n})
 			}
 			bufs := s.BufferAfter
+			if b, ok := s.BufferScript[nD]; ok {
+				bufs = b
+			}
 			no0 := s.NoBuffer0
 			s.mu.Unlock()
 			if fault {
@@ -184,11 +239,6 @@ func (s *Sim) serve() {
 				for i, b := range bufs {
 					if i > 0 {
 						time.Sleep(60 * time.Millisecond)
-					}
-					if b == 0 {
-						s.mu.Lock()
-						s.bufferZeroAt = append(s.bufferZeroAt, time.Now())
-						s.mu.Unlock()
 					}
 					s.SendCmd(fmt.Sprintf("BUFFER %d", b))
 				}
